@@ -8,3 +8,9 @@ claim("C20", "post-condition monitors attached to odc.geo.math (all aliases rebo
       "GeoBox/GridSpec/GCP code) is judged against the documented contract restated as a predicate; ~7e5 evaluations quick, ~4e7 thorough. "
       "Exploration is the right level: the functions are pure, the input space is floats, and the contracts are cheap to evaluate per call.",
       _TB + " Inputs within 4 ulp of a tolerance boundary are not judged.", "DESIGN.md 5/C20")
+
+claim("C17", "post-condition monitors on every ROI helper with numpy indexing as reference model; exhaustive small-domain enumeration + seeded N-D tuples and point envelopes; numeric-UB (RuntimeWarning) monitor",
+      "Each helper call is compared with what numpy selects from arange(n): exhaustive for n<=6 (quick) / n<=9 (thorough) over all open/negative/out-of-range slices, "
+      "all pairs of slices for the intersections, pads and scales; point envelopes are judged against an unbounded-integer model and stated predicates "
+      "(inside image, contains in-image points, padding, alignment, non-finite ignored) with outliers up to 1e300.",
+      _TB + " Stepped slices are outside the statement and only counted.", "DESIGN.md 5/C17")
